@@ -21,7 +21,8 @@ Record facts := mkFacts {
   f_drv_utc : bool;          (* JsonlTraceDriver._now_timestamp takes UTC time *)
   f_defaults : bool;         (* parameters that have a default are reported (context / default channel) *)
   f_meta_safe : bool;        (* preprocessor metadata is made JSON-safe before the trace side uses it *)
-  f_pid_stable : bool        (* the canonical spec is not enriched in place after the pipeline id was hashed *)
+  f_pid_stable : bool;       (* the canonical spec is not enriched in place after the pipeline id was hashed *)
+  f_prestart : bool          (* the ids computed before pipeline_start hash the preprocessor metadata (json.dumps) *)
 }.
 
 (* top-level keys the driver writes, per record type (generated from jsonl.py / trace/model.py) *)
@@ -264,6 +265,8 @@ Definition execute_traced (p : list tnode) (s : state) : result :=
      json.dumps raises TypeError *)
   let start := RStart pd (e_rid E) (e_seq E + 1) (stamp (f_drv_utc F) (e_off E) (e_clk E 0)) (negb (any_opaque p)) in
   let d1 := d_emit (d_open (Closed [])) start in
+  (* compute_pipeline_semantic_id over metadata json cannot encode: raises before anything is emitted *)
+  if f_prestart F && any_opaque p then mkRes (TTrace 0 "TypeError") [] (Closed []) else
   if f_inst_in_try F then protected d1 [start] (body pd p s) p
   else match first_unconstructible 0 (nodes_of p) with
        | Some (i, e) => mkRes (TPlain (CFailed i e)) [start] d1       (* raised before the try *)
